@@ -76,6 +76,7 @@ def check(ctx):
                        "(positional index fields excepted: containers are compared element-wise in order)")
     ctx.rule("C04-R5", "every path that edits _atoms/_residues updates _numAtoms/_numResidues before normal exit")
     ctx.rule("C04-R6", "a preserved integer (resSeq, serial, order) is never defaulted with `or` (0 is falsy)")
+    r3_order_insensitive_hash(ctx)
     ctx.rule("C04-R8", "copy / subset / join / _topology_from_subset never return their input; chains and residues are renumbered after the empty ones were removed")
     r8_fresh_and_renumbered(ctx)
     ctx.rule("C04-R7", "the atom number written in CONECT is produced by the same scheme as the serial on ATOM (same use of atom.serial, same counter start and TER increments)")
@@ -624,3 +625,34 @@ def r8_fresh_and_renumbered(ctx):
         ctx.decide(ok, "C04-R8", body[renum[0]] if renum else fn, TOP, "_topology_from_subset", "%s renumbered once, after the empty ones were removed" % attr, "",
                    "the index renumbering of %s (statement %s) does not come after the removal of the empty ones (statement %s): the indices of the survivors keep gaps, `top.%s(i).index != i`"
                    % (attr, renum, filters, attr[:-1]))
+
+
+def r3_order_insensitive_hash(ctx):
+    """A field that __eq__ compares after sorting (the order is 'somewhat ambiguous') must enter __hash__ order-insensitively, otherwise equal topologies hash differently."""
+    eq = ctx.py.func(TOP, "Topology.__eq__")
+    hs = ctx.py.func(TOP, "Topology.__hash__")
+    sorted_fields = set()
+    for n in walk_no_nested(eq):
+        if isinstance(n, ast.Call) and call_name(n) == "sorted" and n.args:
+            for a in ast.walk(n.args[0]):
+                if isinstance(a, ast.Attribute) and isinstance(a.value, ast.Name) and a.value.id in ("self", "other"):
+                    sorted_fields.add(a.attr.lstrip("_"))
+    if not sorted_fields:
+        ctx.holds("C04-R3", eq, TOP, "Topology.__eq__", "no field is compared after sorting", "")
+        return
+    for f in sorted(sorted_fields):
+        uses = [a for a in ast.walk(hs) if isinstance(a, ast.Attribute) and a.attr.lstrip("_") == f and isinstance(a.value, ast.Name) and a.value.id == "self"]
+        m = ctx.py.mod(TOP)
+        bad = []
+        for u in uses:
+            x = u
+            ok = False
+            while x in m.parents and m.parents[x] is not hs:
+                x = m.parents[x]
+                if isinstance(x, ast.Call) and call_name(x) in ("sorted", "frozenset", "set"):
+                    ok = True
+                    break
+            if not ok:
+                bad.append(u)
+        ctx.decide(bool(uses) and not bad, "C04-R3", bad[0] if bad else hs, TOP, "Topology.__hash__", "`%s` is compared after sorting, so it is hashed order-insensitively" % f, "",
+                   "Topology.__eq__ compares `%s` after sorting but Topology.__hash__ hashes them in list order: two topologies whose %s were added in a different order compare equal and hash differently" % (f, f))
